@@ -227,4 +227,18 @@ def okDigestPair (same : Bool) (ans : Option ((Str × List Str) × (Str × List 
     if same then a.1 == b.1 && a.2 == b.2
     else a.1 != b.1 && concatTokens a.2 != concatTokens b.2
 
+/-- `indep` — EXPORT INDEPENDENCE.  The implementation side records, for one object and one export path
+    (to_dict in both coordinate modes, `__getstate__`, data-model dump, pickle, GUID tree):
+      * how many mutable containers two consecutive exports share (`shared`);
+      * digests of (the first export before it was edited by the caller, the export taken after the edit, the export
+        of a freshly built twin) and of the three GUID trees;
+      * digests of (the export taken after the object's public `qualifiers` were changed, the export of a fresh
+        object built from that changed state).
+    The property demands: nothing shared, the three exports identical, the three GUID trees identical, the export
+    after a state change identical to the fresh object's. -/
+def okIndep (shared : Nat) (exports guids state : List String) : Bool :=
+  let allEq (l : List String) : Bool := match l with | [] => true | x :: xs => xs.all (· == x)
+  shared == 0 && exports.length == 3 && allEq exports && guids.length == 3 && allEq guids &&
+  state.length == 2 && allEq state
+
 end BioCantor.Spec.Digest
